@@ -90,7 +90,7 @@ def add4 (a b : Nat × Nat × Nat × Nat) : Nat × Nat × Nat × Nat :=
     the only rejection of the layer under test; a rejected write abandons its whole session) -/
 def sessionAccepted (stored : List Int) : Session → Bool
   | [] => true
-  | w :: ws => !stored.contains w.ts && sessionAccepted (w.ts :: stored) ws
+  | w :: ws => !stored.contains w.ts && sessionAccepted (stored ++ [w.ts]) ws
 
 def specBlocks : List Write → List Session → List Write
   | acc, [] => acc
